@@ -69,6 +69,11 @@ CLAIMED = {
   note="Trusted: gowp, go/ssa, solvers; strings.Count/LastIndex per documentation; ottoError.describe (fmt) trusted; compiled node trees immutable (proved syntactically as a frame obligation).",
   technique="contract-based deductive verification: loop invariants for the trace limit, at_call state assertions, postconditions over go/ssa VCs discharged by z3/cvc5",
   ref="6 C19"),
+ "C14": dict(
+  text="Ground proof that a fresh runtime has the ES5 section 15 shape: for each of 276 rows written from ECMA-262 5.1 (every global function and constructor, every method of Object, Function.prototype, Array, String, Boolean, Number, Math, Date, RegExp, Error, JSON and their prototypes, the value properties of the global object, Math and Number, constructor/prototype links, [[Class]] and [[Prototype]] of every well-known object) newContext builds that property with the specified attributes (methods writable/non-enumerable/configurable, constants and function length all-false), the specified function length, a function object of class Function linked to Function.prototype, bound to the Go function named after it (builtin<Owner><Name>) with the matching name property, and listed in the owner's property order - 2095 ground obligations obtained by evaluating the composite literals of newContext over the typed AST of the real source on every run. Copies: runtime.clone replaces every well-known object position by position by its copy and objectClone keeps class, flags and property attributes (C17 contracts, counted here). Behaviour of the built-ins, non-ES5 extras and console are not covered.",
+  note="This is the degenerate, input-free use of the technique: newContext has no inputs, so its postcondition is a table of closed facts decided by evaluation (constant folding) rather than by an SMT search; the evaluator is part of gowp and trusted. Three wrong function lengths fixed; the [[Class]] of NativeError prototypes recorded as a known finding.",
+  technique="contract-based deductive verification, ground case: postcondition table of an input-free initialiser, obligations generated from the typed AST of the real code and decided by evaluation; clone contracts by go/ssa VCs and z3/cvc5",
+  ref="6 C14"),
  "C15": dict(
   text="Proof for the scalar core of the Go <-> JavaScript value bridge: toValue carries every supported scalar over unchanged (bool, the ten integer types, float64 and string keep dynamic type and bits; float32 is widened exactly; nil is undefined; a Value is itself; *object becomes an object value) and every number it produces - also through the reflection arm, e.g. for named numeric types - carries a payload type the number kernels accept; Value.export returns the payload of a primitive unchanged, so export(toValue(x)) == x for those scalars follows from the two contracts; Value.number/float64/bool (ToInteger saturating, ToNumber, ToBoolean) equal the ES5 conversions for every payload (shared with C05); IsNaN reads the payload; growing a bridged slice copies from the old slice. Containers (export of arrays/objects, typed slices and maps), MarshalJSON and Call equivalence with in-language calls are not covered; the public ToInteger/ToFloat/ToString wrappers recover panics (catchPanic) and are outside the modelled exits.",
   note="Trusted: gowp, go/ssa, solvers; reflect accessors as assumed library contracts. The round-trip lemma is a two-line consequence of the toValue and export contracts, stated here, not a separate obligation. One defect fixed (named float32 payload).",
